@@ -29,6 +29,47 @@ func checkC06(c *Ctx) {
 		}
 	}
 	genParseStreams(c, func(s string, d []byte) { addDoc(s, d, false) }, 2)
+	// values and escapes laid across the block boundary at which a full index buffer is handed
+	// over (the Go driver around the kernels carries their state there), both input modes
+	for _, nd := range []bool{false, true} {
+		for _, d := range handoverStraddleDocs(nd, []int{0, 29}) {
+			addDoc("value-across-index-handover", d, nd)
+		}
+		for _, d := range handoverEscapeDocs(nd, []int{0, 13}) {
+			addDoc("escape-across-index-handover", d, nd)
+		}
+	}
+	// messages whose last block is partial, with a value starting / an escape straddling the
+	// last 64-byte boundary (the padded tail call of the driver)
+	for n := 1; n <= 3; n++ {
+		for _, pl := range []string{"true", "-1.5", `"ab\"cd"`, `"x\\"`, "null", `""`} {
+			for cut := 0; cut <= len(pl); cut++ {
+				for _, pre := range []string{",", " "} {
+					b := []byte("[0")
+					for len(b) < 64*n-cut-1 {
+						b = append(b, ",1"...)
+					}
+					for len(b) < 64*n-cut-1 {
+						b = append(b, ' ')
+					}
+					if len(b) > 64*n-cut-1 {
+						b = b[:64*n-cut-1]
+						if b[len(b)-1] == ',' {
+							b[len(b)-1] = ' '
+						}
+					}
+					if pre == "," || b[len(b)-1] == '1' || b[len(b)-1] == '0' {
+						b = append(b, ',')
+					} else {
+						b = append(b, ' ')
+					}
+					b = append(b, pl...)
+					b = append(b, "]"...)
+					addDoc("value-across-last-block", b, false)
+				}
+			}
+		}
+	}
 	for i := 0; i < c.N(3000, 40000); i++ {
 		n := r.Intn(200)
 		b := make([]byte, n)
